@@ -169,6 +169,22 @@ pub fn run(ctx: &Ctx) -> i32 {
             check_case(ctx, st, &tcs, s);
         });
     }
+    // thousands of short test cases (the highlighted text is several times longer than the plain one)
+    {
+        let sizes: Vec<usize> = if ctx.thorough { vec![1000, 3000, 5000, 8000, 12000] } else { vec![2500, 6000] };
+        let al = gen::alphabet("abc");
+        par_for(&ctx.run, sizes.len() * 3, |i, st| {
+            let mut rng = Rng::new(seed, 0x152_0000 + i as u64);
+            let k = sizes[i % sizes.len()];
+            let sym: Vec<String> = "abcdefgh".chars().map(|c| c.to_string()).collect();
+            let mut tcs: Vec<String> = (0..k).map(|_| (0..1 + rng.below(6)).map(|_| rng.pick(&sym).clone()).collect()).collect();
+            tcs.extend(["zz", "zzzz", "zzzzzzz", "z"].iter().map(|s| s.to_string()));
+            let _ = &al;
+            let f = [REP | NOEND, NOSTART | NOEND, REP | NOEND | VERB][i / sizes.len()];
+            st.count("large_inputs");
+            check_case(ctx, st, &tcs, Settings::new(f));
+        });
+    }
     let n = if ctx.thorough { 400_000 } else { 40_000 };
     let names = ["sgr", "meta", "mixed", "ws", "graph", "astral", "classes", "ab", "case"];
     let alphabets: Vec<(String, Vec<String>)> = names.iter().map(|a| (a.to_string(), gen::alphabet(a))).collect();
